@@ -142,6 +142,7 @@ func (x *Exec) doCall(f *Frame, st *State, instr ssa.CallInstruction, cc *ssa.Ca
 		// store, the bank ledger of this module's accounts and the caller's memory untouched
 		if nt, ok := types.Unalias(cc.Value.Type()).(*types.Named); ok && strings.HasSuffix(nt.Obj().Name(), "Callback") && nt.Obj().Pkg() != nil && x.prog.isRepoPkg(nt.Obj().Pkg().Path()) {
 			x.assumed["A-CALLBACK: call of a registered "+nt.Obj().Name()+" at "+info.Pos+" has no effect on this module's state"] = true
+			st.cbWorld = st.world.clone()
 			if info.ResTyp == nil {
 				return single(st, nil)
 			}
@@ -581,6 +582,13 @@ func (x *Exec) appendBuiltin(f *Frame, st *State, info *CallInfo) Val {
 			}
 			x.opaqueLens[r] = Add(ln, IntLit(int64(len(as.Elems))))
 			return r
+		}
+	}
+	if bt, ok := base.(*Term); ok && info.ResTyp != nil {
+		if rs := SortOf(info.ResTyp); rs != nil && rs == bt.Sort && !isSliceSort(rs) {
+			// a raw append to a named slice type the model gives a value sort of its own (sdk.Coins): the result need not
+			// be a well-formed value of that type (unsorted, repeated or zero entries), so nothing is known about it
+			return x.freshVal(st, info.ResTyp, "rawappend")
 		}
 	}
 	x.errorf("unsupported append (%T, %T) -> %s", base, add, info.ResTyp)
